@@ -7,7 +7,7 @@ PROP = {  # commits not about the formatter (those are C08)
  '9da8992': 'C01', 'd91e622': 'C03', '2e9f859': 'C03', 'e7ac799': 'C04', '28e0ccd': 'C04', '22d5cf1': 'C04', '6d0a232': 'C04', '3185aeb': 'C05',
  'd507f44': 'C07', 'ca7721f': 'C07', 'aa84597': 'C07', '7352774': 'C07', 'aa57ab3': 'C07', 'da82204': 'C07', 'c864160': 'C07', '35f4813': 'C13', '318b264': 'C15',
  'e0debc7': 'C14', '8fc911b': 'C14', '030290f': 'C14', 'addb726': 'C09', '103d34f': 'C09', '323d523': 'C09', '8d010c9': 'C16', 'c16bd2e': 'C16', '2a694fb': 'C11',
- '5603d42': 'C09', '9cca7b9': 'C09', '3135f98': 'C14', 'c16cd21': 'C07', 'c37f7fa': 'C04', '0741ac7': 'C05', '65aed90': 'C07', '5e65646': 'C09', '54326f5': 'C10', '283d8d7': 'C14', '2dc6595': 'C14', 'ae4ea37': 'C14', '1947967': 'C16', 'a564d2f': 'C16', 'f694c67': 'C16', '6a050cf': 'C05', 'dc5309b': 'C14'}
+ '5603d42': 'C09', '9cca7b9': 'C09', '3135f98': 'C14', 'c16cd21': 'C07', 'c37f7fa': 'C04', '1f3fa07': 'C04', '203a945': 'C13', '0741ac7': 'C05', '65aed90': 'C07', '5e65646': 'C09', '54326f5': 'C10', '283d8d7': 'C14', '2dc6595': 'C14', 'ae4ea37': 'C14', '1947967': 'C16', 'a564d2f': 'C16', 'f694c67': 'C16', '6a050cf': 'C05', 'dc5309b': 'C14'}
 EXAMPLE = {
  '9da8992': 'a<[u8]> := [7 6]; b<[u8]> := [3 5 2]; r := a < b  (-> [false false] instead of a dimension error)',
  'd91e622': 'x := [1 2 3; 4 5 6; 7 8 9]; x[[true false true],:]', '2e9f859': 'x := [1 2 3]; x[[true false]]', 'e7ac799': '~x := [2 4; 6 8]; x[1,:] /= 2',
@@ -23,7 +23,7 @@ EXAMPLE = {
  'c16bd2e': '<a> := :on | :off; <b> := :on | :off; u<b> := :off; r := u? | :on => 1 | :off => 2.  (-> MatchNonExhaustive)',
  '2a694fb': 'a<i64> := 1; b<i64> := 2; r := [a; b]', '5603d42': 'parse("x := 1.0e5u8")', '9cca7b9': 'parse("```ebnf\\na := \\"\\" ;\\n```")',
  '162436d': 'x := [1 2; 3 4]  (formatted as [1 3 2 4])', '0557739': 'x := 1..2..10  (formatted as 1..10..2)', '7e1c08f': 'x := f(x: 1)  (formatted as f(x1))',
- '50bfe95': '(1.1.1.1.1.1) Title  (came back as a level-6 heading)', '3135f98': 'x := 2; r := x ∈ {1,2,3}  (-> false)', 'c37f7fa': '~x<[i128]> := [1 2 3]; s<i128> := 2; x[1..=2] += s  (-> UnhandledFunctionArgumentIxes)', '0741ac7': '(b, c) := (1, 2); b = 7  (accepted: destructured names were mutable)', '65aed90': 'the emitted file of x := {1,2,3} with the set constant replaced by 65536 bytes 0x15 (or 0x1D), table entry, header and checksum rewritten: decode_const_entries overflowed the stack (SIGABRT)', '5e65646': 'parse("(" + "x."*254 + "x) T")  (255 dotted components: attempt to add with overflow)', 'f6a7435': 'x := a ⨯ b  (formatted as a × b, a multiplication); x := a =!= b  (formatted as a =/= b, which does not parse)', '54326f5': 'a := 1 / ```mech:beta / w := [1 2 3] / q := w[7] / ``` / c := 3  (the index panic inside the named fence ended the whole document: c was never defined)', '283d8d7': 'x := 1; y := 2; r := {x, y}; 1 ∈ r  (-> false; r ∪ {1,2} -> SetKindMismatch: the elements were references)', 'ae4ea37': 'p := 1; q := 2; s := {(p,q)}; (1,2) ∈ s  (-> false: the tuple held references)', '1947967': 'x<u8> := 1; r := x? | 1u8 => 10u8 | n => n / 0u8 | * => 99u8.  (-> UnknownPanic: the body of the later arm was evaluated to compare arm kinds)', 'dc5309b': 'p := {9}; s := {1,2}; r := s? | p => {x | x <- p} | * => {0}.  (-> {9}: the comprehension read the global p, not the name bound by the arm)', '6a050cf': '(a, a) := (1, 2)  (-> VariableAlreadyDefined, but a was left defined as 1)', 'a564d2f': 'g(x<f64>, y<f64>) => <f64> | (0, b) => b | * => 99.; g(1, 2)  (-> FunctionOutputUndefined: the wildcard arm never matched two arguments)', 'f694c67': 'x := 0.5; r := x? | 0u64 => 1 | * => 2.  (-> 1: the subject was truncated before the comparison)', '2dc6595': 'z := 0+0i; w := -z; s := {z, w}  (-> a set of size 2 holding two equal elements)', 'c16cd21': 'from_bytes of the emitted file of a program with 12 variables (unexpected end of file)'}
+ '50bfe95': '(1.1.1.1.1.1) Title  (came back as a level-6 heading)', '3135f98': 'x := 2; r := x ∈ {1,2,3}  (-> false)', 'c37f7fa': '~x<[i128]> := [1 2 3]; s<i128> := 2; x[1..=2] += s  (-> UnhandledFunctionArgumentIxes)', '0741ac7': '(b, c) := (1, 2); b = 7  (accepted: destructured names were mutable)', '65aed90': 'the emitted file of x := {1,2,3} with the set constant replaced by 65536 bytes 0x15 (or 0x1D), table entry, header and checksum rewritten: decode_const_entries overflowed the stack (SIGABRT)', '5e65646': 'parse("(" + "x."*254 + "x) T")  (255 dotted components: attempt to add with overflow)', 'f6a7435': 'x := a ⨯ b  (formatted as a × b, a multiplication); x := a =!= b  (formatted as a =/= b, which does not parse)', '54326f5': 'a := 1 / ```mech:beta / w := [1 2 3] / q := w[7] / ``` / c := 3  (the index panic inside the named fence ended the whole document: c was never defined)', '283d8d7': 'x := 1; y := 2; r := {x, y}; 1 ∈ r  (-> false; r ∪ {1,2} -> SetKindMismatch: the elements were references)', 'ae4ea37': 'p := 1; q := 2; s := {(p,q)}; (1,2) ∈ s  (-> false: the tuple held references)', '1947967': 'x<u8> := 1; r := x? | 1u8 => 10u8 | n => n / 0u8 | * => 99u8.  (-> UnknownPanic: the body of the later arm was evaluated to compare arm kinds)', 'dc5309b': 'p := {9}; s := {1,2}; r := s? | p => {x | x <- p} | * => {0}.  (-> {9}: the comprehension read the global p, not the name bound by the arm)', '6a050cf': '(a, a) := (1, 2)  (-> VariableAlreadyDefined, but a was left defined as 1)', 'a564d2f': 'g(x<f64>, y<f64>) => <f64> | (0, b) => b | * => 99.; g(1, 2)  (-> FunctionOutputUndefined: the wildcard arm never matched two arguments)', 'f694c67': 'x := 0.5; r := x? | 0u64 => 1 | * => 2.  (-> 1: the subject was truncated before the comparison)', '2dc6595': 'z := 0+0i; w := -z; s := {z, w}  (-> a set of size 2 holding two equal elements)', '1f3fa07': '~x := [1 2 3]; y := 9; x[2] = y  (-> UnhandledFunctionArgumentIxes, while x[2] = 9 is accepted; the same for x[r,c], x[r,:], x[:,c], x[[..],c] ...)', '203a945': 'x := 1/2+3i  (-> 0+3i)', 'c16cd21': 'from_bytes of the emitted file of a program with 12 variables (unexpected end of file)'}
 kf = json.load(open('/verif/known_findings.json'))
 kf['findings'] = [e for e in kf['findings'] if e['status'] != 'fixed']
 log = subprocess.check_output(['git', '-C', '/repo', 'log', '--format=%h\t%s', PINNED + '..HEAD', '--reverse']).decode().splitlines()
